@@ -162,6 +162,7 @@ def run(ctx):
     if len(rfg.records) < 1000:
         raise tlc.MachineryFailure("InvFilter export too small")
     link_cases = []
+    shared_cases: list = []
     seen = set()
     for rec in rfg.records:
         key = (repr(rec["inv"]), repr(rec["flt"]))
@@ -171,10 +172,14 @@ def run(ctx):
         _replay_filter(ctx, I, rec)
         if rec["inv"] and len(link_cases) < (300 if quick else 3000) and rnd.random() < 0.02:
             link_cases.append(rec)
+        elif len(rec["out"]) >= 2 and len(shared_cases) < 150 and rec["flt"][3] != NONE:
+            hit = [[c2s(x) for x in rec["inv"][k_ - 1]] for k_ in rec["out"]]
+            if len({h[0] for h in hit}) == 1 and all(h[3].startswith("a") for h in hit):
+                shared_cases.append(rec)        # several matches that all resolve to one location: still ambiguous
     ctx.sample({"filter_case": _pretty(rfg.records[len(rfg.records) // 3])})
 
     # ---- R: inv: links in real documents ---------------------------------------------
-    for k, rec in enumerate(link_cases):
+    for k, rec in enumerate(link_cases + shared_cases):
         _replay_link(ctx, rec, k)
 
     # ---- V: larger random inventories ------------------------------------------------
@@ -233,7 +238,9 @@ def _native(entries, base=None):
     inv = {}
     for (i_, d, ty, n) in entries:
         o = inv.setdefault(i_, {"name": "proj " + i_, "version": "1.0", "base_url": base and base.get(i_), "objects": {}})
-        o["objects"].setdefault(d, {}).setdefault(ty, {})[n] = {"loc": f"{d}/{ty}.html#{n}", "text": None if n == "a" else f"T {n}"}
+        # (distinct entries may share one location: names starting with "a" all point at the same anchor)
+        loc = "shared.html#anchor" if n.startswith("a") else f"{d}/{ty}.html#{n}"
+        o["objects"].setdefault(d, {}).setdefault(ty, {})[n] = {"loc": loc, "text": None if n == "a" else f"T {n}"}
     return inv
 
 
